@@ -16,7 +16,7 @@ import json
 import os
 import random
 
-from harness import engine, parallel, tlc, workbooks as W, xl
+from harness import engine, parallel, randwb, tlc, tracecheck, workbooks as W, xl
 from harness.evidence import Verdict
 
 PID = 'C01'
@@ -84,12 +84,100 @@ def tour_job(arg):
     return out
 
 
+def trace_job(arg):
+    """random workbook: record random histories on the real object, validate
+    them with TLC against TraceLazyCache (verdict) and TraceEngine (drift)"""
+    idx, src, ft, n_hist, length, seed = arg
+    rnd = random.Random(seed * 1000003 + idx)
+    wb = randwb.random_workbook(rnd, nrows=rnd.choice([2, 3, 3, 4]),
+                                ncols=rnd.choice([3, 4, 5]))
+    workdir = tlc.new_scratch('rw')
+    out = dict(idx=idx, src=src, violations=[], notes=[], tlc=[], traces=0,
+               events=0, nodes=len(randwb.all_nodes(wb)),
+               sample=dict(random_workbook=W.cells(wb)[0], arrays=W.cells(wb)[1],
+                           source=src))
+    direct = []
+
+    def observe(tr, act, status, got, ret, inputs):
+        if status == 'exc':
+            direct.append((f'{act} raised {got}', list(tr['history'])))
+        elif act['op'] == 'evaluate' and not xl.same_value(got, ret[act['n']]):
+            direct.append((f'evaluate({act["n"]}) returned {got!r}; a from-scratch compile '
+                           f'gives {ret[act["n"]]!r}', list(tr['history'])))
+
+    traces = randwb.record(wb, src, rnd, n_hist, length, W.POOL_FULL, workdir,
+                           ft=ft, on_observe=observe)
+    out['traces'] = len(traces)
+    out['events'] = sum(len(t['events']) for t in traces)
+    case0 = dict(cells=W.cells(wb)[0], arrays=W.cells(wb)[1], source=src, file_type=ft)
+    for desc, hist in direct[:3]:
+        out['violations'].append((desc + f' [random workbook {idx}/{src}]',
+                                  dict(case0, history=hist)))
+    res, bad = tracecheck.validate_lazycache(traces)
+    out['tlc'].append(dict(run=f'TraceLazyCache rw{idx}/{src}', distinct=res.distinct,
+                           generated=res.generated, depth=res.depth,
+                           wall_s=round(res.wall, 2)))
+    for b in bad[:3]:
+        # a rejection has no counterexample: find the stale entry on the real
+        # object and show it through evaluate()
+        conf = confirm_stale(wb, src, ft, workdir, traces[b]['history'])
+        if conf:
+            out['violations'].append((conf[0] + f' [random workbook {idx}/{src}, '
+                                      'trace rejected by TraceLazyCache]',
+                                      dict(case0, history=conf[1])))
+        elif not direct:
+            raise tlc.MachineryFailure(
+                f'TraceLazyCache rejected trace {b} of random workbook {idx}/{src} '
+                f'but no wrong observable could be shown: {traces[b]["history"]}')
+    res2, bad2 = tracecheck.validate_engine(wb, src, W.POOL_FULL, traces, name=f'RW{idx}')
+    out['tlc'].append(dict(run=f'TraceEngine rw{idx}/{src}', distinct=res2.distinct,
+                           generated=res2.generated, depth=res2.depth,
+                           wall_s=round(res2.wall, 2)))
+    if bad2:
+        out['notes'].append(f'spec-drift: TraceEngine rejected {len(bad2)} trace(s) of random '
+                            f'workbook {idx}/{src}, e.g. {traces[bad2[0]]["history"][:6]}')
+    out['accepted'] = len(traces) - len(set(bad) | set(bad2))
+    return out
+
+
+def confirm_stale(wb, src, ft, workdir, history):
+    """re-execute; after each step look for a cached entry that differs from
+    the from-scratch value and show it through evaluate()"""
+    model = engine.RealModel(wb, src, workdir, file_type=ft)
+    oracle = randwb.FreshOracle(wb)
+    inputs = dict(wb['inputs'])
+    n = W.nodes(wb)
+    non_inputs = n['formulas'] + n['ranges'] + n['aliases']
+    done = []
+    for act in history:
+        status, got = model.do(act)
+        done.append(act)
+        if act['op'] == 'set_value':
+            inputs[act['n']] = W.py_val(act['v'])
+        ret, raw = oracle.get(inputs)
+        proj = model.project()
+        for x in non_inputs:
+            c = proj['cache'].get(x)
+            if c is not None and c != ['?'] and c != raw[x]:
+                st, val = model.do(dict(op='evaluate', n=x))
+                if st == 'exc' or not xl.same_value(val, ret[x]):
+                    return (f'evaluate({x}) returned {val!r}; a from-scratch compile with '
+                            f'inputs {inputs} gives {ret[x]!r}',
+                            done + [dict(op='evaluate', n=x)])
+    return None
+
+
 def untrim(model, node, got):
     """evaluate() trims 1xn / nx1 results; the cache (and the spec) keep 2-d"""
     cell = model.m.cell_map.get(W.addr(node))
     if cell is not None and isinstance(cell.value, tuple):
         return cell.value
     return got
+
+
+def any_job(arg):
+    kind, j = arg
+    return tour_job(j) if kind == 'tour' else trace_job(j)
 
 
 def run(tier, seed):
@@ -110,7 +198,16 @@ def run(tier, seed):
         for name in ('chain', 'alias', 'nested'):
             for src in ('NoData', 'Stored'):
                 jobs.append((name, W.POOL_FULL, src, ('-',), seed, 5))
-    results = parallel.run_jobs(tour_job, jobs)
+    if tier == 'quick':
+        tjobs = [(i, src, 'yml', 12, 25, seed) for i in range(3)
+                 for src in ('NoData', 'Stored', 'Loaded')]
+    else:
+        tjobs = [(i, src, ('yml', 'json', 'pkl')[i % 3], 50, 30, seed)
+                 for i in range(16) for src in ('NoData', 'Stored', 'Loaded')]
+    both = parallel.run_jobs(any_job, [('tour', j) for j in jobs] +
+                             [('trace', j) for j in tjobs])
+    results = both[:len(jobs)]
+    tres = both[len(jobs):]
     drift = 0
     for r in results:
         res = type('R', (), r['tlc'])
@@ -127,7 +224,26 @@ def run(tier, seed):
         for desc, case in r['violations']:
             v.violation(desc, case)
         v.sample(r['sample'], limit=3)
+    rec_traces = rec_events = accepted = 0
+    for r in tres:
+        v.tlc_runs.extend(r['tlc'])
+        v.states += sum(t['distinct'] for t in r['tlc'])
+        v.transitions += sum(t['generated'] for t in r['tlc'])
+        rec_traces += r['traces']
+        rec_events += r['events']
+        accepted += r['accepted']
+        v.evaluations += r['events']
+        v.distinct.update(('rw', r['idx'], r['src'], i) for i in range(r['events']))
+        for n in r['notes']:
+            v.note(n)
+        for desc, case in r['violations']:
+            v.violation(desc, case)
+        if r['idx'] == 0:
+            v.sample(r['sample'], limit=6)
+    v.traces += accepted
     v.extra.update(
+        recorded_traces=rec_traces, recorded_events=rec_events,
+        recorded_traces_accepted_by_both_trace_specs=accepted,
         exhaustive=True, spec_drift_tours=drift,
         rule='one case = one transition (state, action) of the TLC-explored graph of '
              'Engine.tla executed on the real object; every transition of every listed '
